@@ -183,6 +183,62 @@ fn compare_state(rep: &mut Report, tol_: &Tol, tag: &str, idx: u64, step: usize,
 /// The trackers run this filter with the weights they were configured with: a single well separated object is fed to
 /// Sort / BatchSort / VisualSort instances with random Kalman weights (many instances with different weights live in one
 /// process) and the estimated box of every record is compared with the free-running f64 reference for those weights.
+/// distance() of a probe point from the given state against the f64 squared Mahalanobis distance of that very state
+fn probe_point_distance(rep: &mut Report, pf: &Point2DKalmanFilter, st: &similari::utils::kalman::KalmanState<4>, probe: &Point2<f32>, wp: f64, idx: u64, k: usize, what: &str, ctx: &vh::Value) -> bool {
+    let (m, c) = st.verif_raw();
+    let lm = Mat::col(&m.iter().map(|v| *v as f64).collect::<Vec<_>>());
+    let lp = Mat::from_rows(4, 4, &c.iter().map(|v| *v as f64).collect::<Vec<_>>());
+    let h = RefKf::new(2).h;
+    let dref = RefKf::maha(&lm, &lp, &h, &[probe.x as f64, probe.y as f64], &[wp, wp]);
+    let dl = pf.distance(st, probe) as f64;
+    rep.count("standstill_probe_distances_compared");
+    rep.max("point_distance_rel_err", (dl - dref).abs() / dref.max(1e-6));
+    if (dl - dref).abs() > TOL.dist_rel * dref + 1e-5 {
+        rep.violation("C07/point/distance/standstill-probe", idx, json!({"ctx": ctx, "step": k, "what": what, "lib": dl, "reference": dref, "mean": m}));
+        return false;
+    }
+    true
+}
+
+/// The vector filter on a long point vector (256..3000 points, all different, different ages): every element of predict /
+/// update / distance must be bit-equal to the scalar point filter run on that element alone, in input order.
+fn wide_vector(rep: &mut Report, rng: &mut Rng, idx: u64, wp32: f32, wv32: f32) {
+    let n = *rng.pick(&[256usize, 257, 300, 1024, 1025, 2000, 3000]);
+    let pf = Point2DKalmanFilter::new(wp32, wv32);
+    let vf = Vec2DKalmanFilter::new(wp32, wv32);
+    let mut pts: Vec<Point2<f32>> = (0..n).map(|i| Point2::from([(i as f32) * 1.5 + rng.uniform(0.0, 1.0) as f32, 1000.0 - (i as f32) * 0.75 + rng.uniform(0.0, 0.5) as f32])).collect();
+    let mut vst = vf.initiate(&pts);
+    let mut sst: Vec<_> = pts.iter().map(|p| pf.initiate(p)).collect();
+    let rounds = 2 + rng.usize(3);
+    for round in 0..rounds {
+        vst = vf.predict(&vst);
+        sst = sst.iter().map(|s| pf.predict(s)).collect();
+        for (i, p) in pts.iter_mut().enumerate() {
+            *p = Point2::from([p.x + 0.3 + (i % 7) as f32 * 0.01, p.y - 0.2 - (i % 5) as f32 * 0.02]);
+        }
+        let dv = vf.distance(&vst, &pts);
+        let ds: Vec<f32> = sst.iter().zip(pts.iter()).map(|(s, p)| pf.distance(s, p)).collect();
+        let bad = if dv.len() != ds.len() { Some(0) } else { dv.iter().zip(ds.iter()).position(|(a, b)| a.to_bits() != b.to_bits()) };
+        if let Some(i) = bad {
+            rep.violation("C07/vec/wide/distance-differs-from-point-filter", idx, json!({"points": n, "round": round, "first_element": i, "vec_len": dv.len()}));
+            return;
+        }
+        vst = vf.update(&vst, &pts);
+        sst = sst.iter().zip(pts.iter()).map(|(s, p)| pf.update(s, p)).collect();
+        let same = vst.len() == sst.len()
+            && vst.iter().zip(sst.iter()).all(|(a, b)| {
+                let ((am, ac), (bm, bc)) = (a.verif_raw(), b.verif_raw());
+                am.iter().zip(bm.iter()).all(|(x, y)| x.to_bits() == y.to_bits()) && ac.iter().zip(bc.iter()).all(|(x, y)| x.to_bits() == y.to_bits())
+            });
+        if !same {
+            rep.violation("C07/vec/wide/state-differs-from-point-filter", idx, json!({"points": n, "round": round, "vec_len": vst.len()}));
+            return;
+        }
+        rep.add("wide_vector_points_compared", n as u64);
+    }
+    rep.count("wide_vectors");
+}
+
 fn tracker_section(cli: &Cli, rep: &mut Report) {
     use vh::trk::*;
     let n = cli.cases(400, 6000);
@@ -508,6 +564,8 @@ fn main() {
             let mut s = f.initiate(&z);
             let p = Point2::from([z.xc, z.yc]);
             let mut ps = pf.initiate(&p);
+            let fresh_ps = pf.initiate(&p);
+            let probe = Point2::from([p.x + (hcur * rng.uniform(0.05, 0.6)) as f32, p.y - (hcur * rng.uniform(0.05, 0.6)) as f32]);
             // every step of the stand-still phase is also a one-step differential (the measurement equals the projected
             // mean bit for bit after the first update: a zero innovation still has to shrink the covariance)
             let mut sgood = true;
@@ -532,11 +590,16 @@ fn main() {
                     ps = pf.predict(&ps);
                     let (m, c) = ps.verif_raw();
                     sgood &= compare_state(&mut rep, &STEP, "point1-standstill", idx, k, "predict(one-step)", &m, &c, &one, Some(&c0), 0.0, &ctx);
+                    sgood &= probe_point_distance(&mut rep, &pf, &ps, &probe, wp, idx, k, "after-predict", &ctx);
                     let mut one = ref_from(2, &m, &c);
                     one.update(&[p.x as f64, p.y as f64], &[wp, wp]);
                     ps = pf.update(&ps, &p);
                     let (m2, c2) = ps.verif_raw();
                     sgood &= compare_state(&mut rep, &STEP, "point1-standstill", idx, k, "update(one-step)", &m2, &c2, &one, Some(&c), 0.0, &ctx);
+                    // the same probe point is measured against states whose mean is bit-identical while the covariance
+                    // differs (after the prediction, after the update, and against a freshly initiated state at the same place)
+                    sgood &= probe_point_distance(&mut rep, &pf, &ps, &probe, wp, idx, k, "after-update", &ctx);
+                    sgood &= probe_point_distance(&mut rep, &pf, &fresh_ps, &probe, wp, idx, k, "fresh-state-same-mean", &ctx);
                     rep.count("standstill_steps_compared");
                 } else {
                     s = f.predict(&s);
@@ -561,6 +624,9 @@ fn main() {
             if ((pp.x - p.x) as f64).abs() > tol(p.x) || ((pp.y - p.y) as f64).abs() > tol(p.y) {
                 rep.violation("C07/point/stationary-drift", idx, json!({"ctx": ctx, "point": [p.x, p.y], "predicted": [pp.x, pp.y]}));
             }
+        }
+        if !cli.small && rng.chance(1.0 / 12.0) {
+            wide_vector(&mut rep, &mut rng, idx, wp32, wv32);
         }
         if rep.want_sample() {
             rep.sample(json!({"ctx": ctx, "first_measurement[xc,yc,angle,aspect,h]": zv(&z0), "updates": updates}));
